@@ -300,16 +300,25 @@ int vnadata_set_format(vnadata_t *vdp, const char *format)
      * Replace the current format vector.
      */
 update:
-    free((void *)vdip->vdi_format_vector);
-    vdip->vdi_format_vector = vfdp_new;
-    vfdp_new = NULL;
-    vdip->vdi_format_count = nfields;
+    {
+	vnadata_format_descriptor_t *vfdp_old = vdip->vdi_format_vector;
+	int old_count = vdip->vdi_format_count;
 
-    /*
-     * Update the format string.
-     */
-    if (_vnadata_update_format_string(vdip) == -1) {
-	goto out;
+	vdip->vdi_format_vector = vfdp_new;
+	vdip->vdi_format_count = nfields;
+
+	/*
+	 * Update the format string.  If that fails, keep the old
+	 * vector so that vector and string still describe the same
+	 * format.
+	 */
+	if (_vnadata_update_format_string(vdip) == -1) {
+	    vdip->vdi_format_vector = vfdp_old;
+	    vdip->vdi_format_count = old_count;
+	    goto out;
+	}
+	vfdp_new = NULL;
+	free((void *)vfdp_old);
     }
     rc = 0;
 
